@@ -8,6 +8,8 @@ the relation that broke, and the input class computed from the event itself:
 ":asymmetric-similarity" an undirected class holds an asymmetric similarity,
 ":phase-directed" directed Hilbert network whose links are additionally masked
 by the sign of the phase shift)."""
+import warnings
+
 import numpy as np
 
 from pvm.gen import objects as go
@@ -555,6 +557,16 @@ def sweep(ctx, net, m, ths, cid):
         prev, prev_t = B, t
 
 
+READ_ONLY = ("correlation_distance", "inv_correlation_distance",
+             "similarity_measure", "degree", "link_density_function_default",
+             "correlation_distance_weighted_average_path_length",
+             "correlation_distance_weighted_closeness",
+             "local_correlation_distance_weighted_vulnerability",
+             "average_link_distance", "max_link_distance",
+             "area_weighted_connectivity", "nsi_degree",
+             "cross_correlation_max", "mutual_information", "spearman_corr")
+
+
 def history(ctx, rng, net, m, length, cid):
     hist = []
     changed = False
@@ -574,6 +586,17 @@ def history(ctx, rng, net, m, length, cid):
         else:
             name = "set_non_local"
             arg = (not m.nl) if rng.random() < 0.75 else m.nl
+        if rng.random() < 0.5:
+            # a read-only query between two changes (results are cached on
+            # the object; the next change must still start from the
+            # similarity the network was built from)
+            qs = [q for q in READ_ONLY if callable(getattr(net, q, None))]
+            q = qs[int(rng.integers(0, len(qs)))]
+            with warnings.catch_warnings():
+                warnings.simplefilter("ignore")
+                ctx.call(getattr(net, q))
+            hist.append(["query", q])
+            ctx.count("history:query")
         hist.append([name, arg])
         if not setter(ctx, net, m, name, arg, cid, list(hist)):
             return
@@ -595,6 +618,13 @@ def base_case(ctx, k, cid):
     rng = ctx.rng("base", k)
     nmax = 16 if ctx.thorough else 9
     n = int(rng.integers(2, nmax + 1))
+    if k % 24 == 7:
+        # sizes around powers of two (block / chunk boundaries of vectorised
+        # or tiled implementations)
+        sizes = [31, 32, 33, 63, 64, 65] + ([127, 128, 129, 257]
+                                            if ctx.thorough else [])
+        n = sizes[(k // 24) % len(sizes)]
+        ctx.count("power_of_two_boundary_sizes")
     kind = str(rng.choice(["sym-max", "sym-max", "sym-max", "sym-arb",
                            "asym", "asym", "float"]))
     near = kind == "float"
